@@ -313,6 +313,64 @@ func c18FoldComplete(c *Ctx, pkgs []string) {
 			}
 		})
 	}
+	// second incomplete form: the end-around add  uint16(X + X>>16)  is a complete fold only of a sum of TWO 16-bit values
+	// (X ≤ 0x1fffe: the add cannot carry twice). Applied to an accumulator of many words it adds the halves and throws the
+	// carry of that addition away.
+	for _, f := range c.P.ModuleFuncs() {
+		in := false
+		for _, p := range pkgs {
+			if pkgPathOf(f) == p {
+				in = true
+			}
+		}
+		if !in || f.Blocks == nil {
+			continue
+		}
+		allInstrs(f, func(ins ssa.Instruction) {
+			v, ok := ins.(*ssa.BinOp)
+			if !ok || v.Op != token.ADD {
+				return
+			}
+			var x ssa.Value
+			for _, p := range [][2]ssa.Value{{v.X, v.Y}, {v.Y, v.X}} {
+				if sh, ok := p[1].(*ssa.BinOp); ok && sh.Op == token.SHR && sameValue(sh.X, p[0]) {
+					if k, isK := intConst(sh.Y); isK && k == 16 {
+						x = p[0]
+					}
+				}
+			}
+			if x == nil {
+				return
+			}
+			narrowed := false
+			for _, ref := range *v.Referrers() {
+				if cv, ok := ref.(*ssa.Convert); ok {
+					if b, ok := cv.Type().Underlying().(*types.Basic); ok && b.Kind() == types.Uint16 {
+						narrowed = true
+					}
+				}
+			}
+			if !narrowed {
+				return
+			}
+			n++
+			key := shortName(f) + ": end-around add uint16(x + x>>16) at " + c.P.ipos(v)
+			is16 := func(u ssa.Value) bool {
+				cv, ok := u.(*ssa.Convert)
+				if !ok {
+					return false
+				}
+				b, ok := cv.X.Type().Underlying().(*types.Basic)
+				return ok && (b.Kind() == types.Uint16 || b.Kind() == types.Uint8)
+			}
+			two := false
+			if sum, ok := x.(*ssa.BinOp); ok && sum.Op == token.ADD && is16(sum.X) && is16(sum.Y) {
+				two = true
+			}
+			r.Check(two, "C18-K12", key, c.P.ipos(v), "x is the sum of two zero-extended 16-bit values",
+				"x + x>>16 narrowed to 16 bits folds completely only when x is the sum of two 16-bit values; here x is a wider accumulator, so the carry out of low(x)+high(x) is dropped and the checksum is off by one for the inputs that produce it")
+		})
+	}
 	r.Count("C18-K12-folds", n)
 }
 
